@@ -355,7 +355,7 @@ func Run(sc *Scenario) *Obs {
 	}
 	fx, err := wire.NewClientFixture(dopts...)
 	if err != nil {
-		h.obs.Findings = append(h.obs.Findings, Finding{Props: pBoth, Key: "harness", Msg: "fixture: " + err.Error() + " config " + ServiceConfigJSON(&sc.Cfg)})
+		h.obs.Findings = append(h.obs.Findings, Finding{Props: pBoth, Key: "valid-service-config-rejected", Msg: "grpc.NewClient rejected a default service config whose every value is within the gRFC A6 limits: " + err.Error() + "; config " + ServiceConfigJSON(&sc.Cfg)})
 		return h.obs
 	}
 	stop := make(chan struct{})
